@@ -44,9 +44,11 @@ NOEXPECT = '<none>'
 
 # ------------------------------------------------------------------ kinds
 
-def author_config(kind, answers, debug):
+def author_config(kind, answers, debug, which='g1'):
     """builds the AUTHOR's configuration object (a plain dict with nested containers)"""
     cfg = dict(KINDS[kind]['extra']())
+    if which == 'g2' and 'extra_g2' in KINDS[kind]:
+        cfg.update(KINDS[kind]['extra_g2']())       # the second instance may be configured differently
     if answers is not None:
         cfg['answers'] = answers
     cfg['debug'] = debug
@@ -71,6 +73,11 @@ KINDS = {
                            A='[[1,0],[0,2]]', B='[[2,0],[0,2]]', INV='[[1,0],[0',
                            inputs=dict(rightA='[[1,0],[0,2]]', rightB='2*[[1,0],[0,1]]', wrong='[[0,0],[0,0]]',
                                        malformed='[[1,0],[0,0.5]]^-1', nontext=5)),
+    # suppressed matrix errors come back as zero-grade results that carry the grader's own wrong_msg (g2 has another one)
+    'MatrixSuppressed': dict(cls=MatrixGrader, extra=lambda: dict(suppress_matrix_messages=True, wrong_msg='nope (g1)'),
+                             extra_g2=lambda: dict(wrong_msg=''),
+                             A='[1,2]', B='[3,4]', INV='[1,',
+                             inputs=dict(rightA='[1,2]', rightB='[3,4]', wrong='[0,0]', malformed='[1,2,3]', nontext=5)),
     'SingleList': dict(cls=SingleListGrader, extra=lambda: dict(subgrader=StringGrader()),
                        A='a,b', B='c,d', INV='a,,b',
                        inputs=dict(rightA='b,a', rightB='c,d', wrong='z,z', malformed='a,,b', nontext=5)),
@@ -219,6 +226,83 @@ def restore_globals(saved):
                 delattr(c, k)
 
 
+def library_containers():
+    """
+    Every mutable container (dict / list / set) held at module level or as a class attribute anywhere in the library
+    (found by scanning the imported modules of the tree under test, so containers introduced by an edit are included).
+    """
+    import sys
+    import types
+    found = []
+    seen = set()
+    for name, mod in list(sys.modules.items()):
+        if mod is None or not (name == 'mitxgraders' or name.startswith('mitxgraders.')):
+            continue
+        for attr, val in list(vars(mod).items()):
+            if isinstance(val, (dict, list, set)) and id(val) not in seen and not attr.startswith('__'):
+                seen.add(id(val))
+                found.append(('%s.%s' % (name, attr), val))
+            if isinstance(val, type) and val.__module__.startswith('mitxgraders'):
+                for cattr, cval in list(vars(val).items()):
+                    if isinstance(cval, (dict, list, set)) and id(cval) not in seen and not cattr.startswith('__'):
+                        seen.add(id(cval))
+                        found.append(('%s.%s.%s' % (name, val.__name__, cattr), cval))
+    return found
+
+
+LIB_STATE = None
+
+
+def snapshot_library_state():
+    global LIB_STATE
+    LIB_STATE = []
+    for name, obj in library_containers():
+        try:
+            LIB_STATE.append((name, obj, copy.deepcopy(obj)))
+        except Exception:
+            pass
+
+
+def restore_library_state():
+    """puts every library-level container back to its pristine content, in place (identity preserved)"""
+    for name, obj, saved in LIB_STATE:
+        try:
+            if obj == saved:
+                continue
+        except Exception:
+            pass
+        fresh = copy.deepcopy(saved)
+        if isinstance(obj, dict):
+            obj.clear()
+            obj.update(fresh)
+        elif isinstance(obj, list):
+            obj[:] = fresh
+        else:
+            obj.clear()
+            obj.update(fresh)
+
+
+class pristine_library(object):
+    """context: run something in the pristine library-level state, then put the current state back"""
+    def __enter__(self):
+        self.cur = []
+        for name, obj, saved in LIB_STATE:
+            try:
+                self.cur.append((obj, copy.deepcopy(obj)))
+            except Exception:
+                pass
+        restore_library_state()
+
+    def __exit__(self, *exc):
+        for obj, cur in self.cur:
+            if isinstance(obj, list):
+                obj[:] = cur
+            else:
+                obj.clear()
+                obj.update(cur)
+        return False
+
+
 PRISTINE = None
 SAVED = None
 
@@ -228,6 +312,7 @@ def pristine():
     global PRISTINE, SAVED
     if PRISTINE is None:
         SAVED = save_globals()
+        snapshot_library_state()
         PRISTINE = global_snapshot()
     return PRISTINE
 
@@ -320,21 +405,24 @@ class GraderHistory(BFSFamily):
         self.fresh = {}
         self.valid = {}
 
-    def make_author_cfg(self, answers):
+    def make_author_cfg(self, answers, which='g1'):
         if self.simple:
             return self.spec['cfg'](self.debug)
-        return author_config(self.kindname, answers, self.debug)
+        return author_config(self.kindname, answers, self.debug, which)
 
-    def fresh_obs(self, eff, inkey):
+    def fresh_obs(self, eff, inkey, which='g1'):
         """observation of a fresh grader whose answers are `eff` (NOEXPECT: none configured) for input inkey"""
-        key = (eff, inkey)
+        if which == 'g2' and (self.simple or 'extra_g2' not in self.spec):
+            which = 'g1'
+        key = (eff, inkey, which)
         if key not in self.fresh:
-            try:
-                g = self.cls(self.make_author_cfg(None if eff == NOEXPECT else eff))
-            except Exception as e:
-                self.fresh[key] = ('construct-failed', type(e).__name__, str(e))
-                return self.fresh[key]
-            self.fresh[key] = normalise(do_call(g, None, self.spec['inputs'][inkey]))
+            with pristine_library():        # the reference must not see what the history under test left behind
+                try:
+                    g = self.cls(self.make_author_cfg(None if eff == NOEXPECT else eff, which))
+                except Exception as e:
+                    self.fresh[key] = ('construct-failed', type(e).__name__, str(e))
+                    return self.fresh[key]
+                self.fresh[key] = normalise(do_call(g, None, self.spec['inputs'][inkey]))
         return self.fresh[key]
 
     def expect_valid(self, e):
@@ -356,7 +444,7 @@ class GraderHistory(BFSFamily):
         for e in exps:
             for i in inputs:
                 evs.append(('call', 'g1', e, i))
-        for e, i in (('B', 'rightB'), ('none', 'rightA'), ('INV', 'malformed')):
+        for e, i in (('B', 'rightB'), ('none', 'rightA'), ('INV', 'malformed'), ('B', 'malformed')):
             if self.simple or self.configured:
                 e = 'none' if e != 'B' else ('B' if not self.simple else 'X')
             evs.append(('call', 'g2', e, i))
@@ -377,6 +465,9 @@ class GraderHistory(BFSFamily):
         return self.spec[ekey]
 
     def build(self, hist):
+        # every history starts from the pristine library-level state (whatever an earlier history of this worker left in
+        # module-level or class-level containers is undone), so that a violation is attributed to the history causing it
+        restore_library_state()
         s = System()
         s.cls = self.cls
         s.spec = self.spec
@@ -385,7 +476,7 @@ class GraderHistory(BFSFamily):
             configured_answers = self.spec['A']
         s.author_cfg = self.make_author_cfg(configured_answers)
         s.author_snapshot = canon_author(s.author_cfg)
-        s.g = {'g1': self.cls(s.author_cfg), 'g2': self.cls(self.make_author_cfg(configured_answers))}
+        s.g = {'g1': self.cls(s.author_cfg), 'g2': self.cls(self.make_author_cfg(configured_answers, 'g2'))}
         s.author_after_construct = canon_author(s.author_cfg)
         # reference: which expect values may be in force
         init = configured_answers if configured_answers is not None else NOEXPECT
@@ -419,14 +510,14 @@ class GraderHistory(BFSFamily):
             candidates = {expect}
         else:
             candidates = set(poss)
-        matches = [c for c in candidates if self.fresh_obs(c, inkey) == obs]
+        matches = [c for c in candidates if self.fresh_obs(c, inkey, tgt) == obs]
         if inference:
             if obs[0] == 'ok':
                 s.possible[tgt] = {expect}
             else:
                 s.possible[tgt] = poss | {expect}
         if not matches:
-            exp = {c: self.fresh_obs(c, inkey) for c in candidates}
+            exp = {c: self.fresh_obs(c, inkey, tgt) for c in candidates}
             kind = 'differs-from-fresh-grader'
             if obs[0] == 'err' and all(v[0] == 'ok' for v in exp.values()):
                 kind = 'raises-but-fresh-grader-grades'
@@ -536,6 +627,96 @@ class Scopes(Family):
         return Result('unchanged', True, None, len(case))
 
 
+class RegisteredDefaults(Family):
+    name = 'registered_defaults_histories'
+    rule = ('every sequence of <= 4 [quick 3] operations over {register {debug: True} on AbstractGrader, register {case_sensitive: False} on '
+            'StringGrader, register {wrong_msg: "reg"} on ItemGrader, construct StringGrader with explicit options, construct a plain '
+            'StringGrader, construct a NumericalGrader, clear everything}: every constructed grader must have exactly the configuration '
+            'predicted by an independent model (library defaults < registered defaults along the class chain < explicit options), the '
+            'registered dictionaries must contain only what was registered, and after clearing everything is pristine')
+
+    OPS = ['regA', 'regS', 'regI', 'newX', 'newP', 'newN', 'clear']
+
+    def setup(self, tier):
+        self.base_string = dict(StringGrader(answers='dog').config)
+        self.base_num = dict(NumericalGrader(answers='2').config)
+
+    def cases(self, tier):
+        n = 4 if tier == 'thorough' else 3
+        for L in range(1, n + 1):
+            for seq in itertools.product(range(len(self.OPS)), repeat=L):
+                yield seq
+
+    def describe(self, case):
+        return [self.OPS[i] for i in case]
+
+    def check(self, case):
+        model = {AbstractGrader: {}, ItemGrader: {}, StringGrader: {}}
+        classes = (AbstractGrader, ItemGrader, StringGrader, NumericalGrader, FormulaGrader, ObjectWithSchema)
+        calls = 0
+        try:
+            for step, i in enumerate(case):
+                op = self.OPS[i]
+                calls += 1
+                if op == 'regA':
+                    AbstractGrader.register_defaults({'debug': True})
+                    model[AbstractGrader]['debug'] = True
+                elif op == 'regS':
+                    StringGrader.register_defaults({'case_sensitive': False})
+                    model[StringGrader]['case_sensitive'] = False
+                elif op == 'regI':
+                    ItemGrader.register_defaults({'wrong_msg': 'reg'})
+                    model[ItemGrader]['wrong_msg'] = 'reg'
+                elif op == 'clear':
+                    for c in classes:
+                        c.clear_registered_defaults()
+                    model = {AbstractGrader: {}, ItemGrader: {}, StringGrader: {}}
+                else:
+                    if op == 'newX':
+                        g = StringGrader(answers='cat', wrong_msg='nope', strip=False)
+                        exp = dict(self.base_string)
+                        for c in (AbstractGrader, ItemGrader, StringGrader):
+                            exp.update(model[c])
+                        exp.update({'wrong_msg': 'nope', 'strip': False})
+                        exp['answers'] = StringGrader(answers='cat', **{k: v for k, v in exp.items() if k != 'answers'}).config['answers']
+                    elif op == 'newP':
+                        g = StringGrader(answers='dog')
+                        exp = dict(self.base_string)
+                        for c in (AbstractGrader, ItemGrader, StringGrader):
+                            exp.update(model[c])
+                    else:
+                        g = NumericalGrader(answers='2')
+                        exp = dict(self.base_num)
+                        for c in (AbstractGrader, ItemGrader):
+                            exp.update(model[c])
+                    got = dict(g.config)
+                    if canon_author(got) != canon_author(exp):
+                        diff = sorted(k for k in set(got) | set(exp) if canon_author(got.get(k, '<absent>')) != canon_author(exp.get(k, '<absent>')))
+                        return Result('config-differs', True,
+                                      viol('registered-defaults:constructed-config-differs-from-model',
+                                           'after %r the %s has options %r differing from defaults+registered+explicit: got %r, expected %r'
+                                           % ([self.OPS[j] for j in case[:step + 1]], type(g).__name__, diff,
+                                              {k: got.get(k) for k in diff}, {k: exp.get(k) for k in diff}),
+                                           {k: repr(exp.get(k)) for k in diff}, {k: repr(got.get(k)) for k in diff}), calls)
+                for c in (AbstractGrader, ItemGrader, StringGrader):
+                    have = c.default_values or {}
+                    if have != model[c]:
+                        return Result('registered-polluted', True,
+                                      viol('registered-defaults:class-defaults-changed-by-construction',
+                                           'after %r %s.default_values is %r, registered was %r'
+                                           % ([self.OPS[j] for j in case[:step + 1]], c.__name__, have, model[c]), model[c], have), calls)
+                for c in (NumericalGrader, FormulaGrader, ObjectWithSchema):
+                    if c.default_values:
+                        return Result('registered-leaked', True,
+                                      viol('registered-defaults:leaked-to-other-class', '%s.default_values = %r' % (c.__name__, c.default_values)), calls)
+        except Exception as e:
+            return Result('raised', True, viol('registered-defaults:raised', 'sequence %r raised %r' % (self.describe(case), e)), calls)
+        finally:
+            for c in classes:
+                c.clear_registered_defaults()
+        return Result('ok', len(set(case)) > 1, None, calls)
+
+
 def families(tier):
     pristine()
     fams = []
@@ -550,4 +731,5 @@ def families(tier):
         for debug in debug_opts:
             fams.append(GraderHistory(kind, True, debug))
     fams.append(Scopes())
+    fams.append(RegisteredDefaults())
     return fams
